@@ -127,6 +127,30 @@ Proof. exact IncludeProofs.parse_fs_resolved. Qed.
 Theorem C16_includes_instance :
   Include.parse_fs (bs "#include ""d.tars"" module M { };") [ (bs "d.tars", bs "#include ""in.tars"" module D { };") ] = Include.FErr.
 Proof. exact IncludeProofs.parse_fs_circular. Qed.
+(* "every user type named in a file's generated code has its defining module imported": FindTNameType reports the module
+   that DEFINES the type, however deep in the include tree it sits (the looked-up name is that module's name, "::", one of
+   its structs or enums); hence - declared names without ':' - every module the analysed type names (Mod::T, printed Mod.T
+   by the generator) is among those checkDepTName records for the imports (DependModule), also for a type reached through
+   an include of an include *)
+Theorem C16_defining_module_found : forall t full c modn, Include.find_tname_t t full = Some (c, modn) ->
+  exists m n, In m (IncludeProofs.tree_modules t) /\ m_name m = modn /\ full = modn ++ colons ++ n /\
+              (existsb (fun s => beq (st_name s) n) (m_structs m) || existsb (fun e => beq (en_name e) n) (m_enums m)) = true.
+Proof. exact IncludeProofs.find_tname_t_owner. Qed.
+Theorem C16_imports_cover : forall m incs v v',
+  forallb IncludeProofs.module_plain (IncludeProofs.tree_modules (Include.PT m incs)) = true ->
+  Include.check_tname_t m incs v = Ok v' -> incl (Include.used_modules v') (Include.recorded_deps m incs v).
+Proof. exact IncludeProofs.imports_cover. Qed.
+Theorem C16_imports_cover_instance :
+  let leaf := {| m_name := bs "Leaf"; m_structs := [ {| st_name := bs "Item"; st_mb := [] |} ]; m_hashkeys := []; m_enums := []; m_consts := []; m_ifaces := [] |} in
+  let mid := empty_module (bs "Mid") in
+  let top := empty_module (bs "Top") in
+  forallb IncludeProofs.module_plain (IncludeProofs.tree_modules (Include.PT top [Include.PT mid [Include.PT leaf []]])) = true /\
+  Include.check_tname_t top [Include.PT mid [Include.PT leaf []]] (VVec (VName (bs "Leaf::Item") CNone)) = Ok (VVec (VName (bs "Leaf::Item") CStruct)) /\
+  Include.recorded_deps top [Include.PT mid [Include.PT leaf []]] (VVec (VName (bs "Leaf::Item") CNone)) = [bs "Leaf"].
+Proof. exact IncludeProofs.imports_cover_instance. Qed.
+Print Assumptions C16_defining_module_found.
+Print Assumptions C16_imports_cover.
+Print Assumptions C16_imports_cover_instance.
 Print Assumptions C16_terminates_with_includes.
 Print Assumptions C16_single_file_agrees.
 Print Assumptions C16_analysis_resolves_with_includes.
